@@ -227,6 +227,8 @@ def run(ctx):
             r = ctx.tlc("FoParseStateMC", "FoParseState_%s.cfg" % cfg, workers=4, timeout=1800, allow_fail=True)
             if "is violated" not in r["out"]:
                 raise Infra("deviation %s does not violate any invariant of the model (vacuous?)" % cfg)
+    # unbounded: ContextFresh and NoCapture of the machine without deviations, for every package and history (TLA+ proof system)
+    ctx.extra["tlaps_obligations_proved_FoParseStateProof"] = ctx.tlapm("FoParseStateProof")
     ctx.build("fc")
     fcutil.build_goast(ctx)
     prelude_roots(ctx)             # (calibrated once, before the parallel runs)
